@@ -86,7 +86,9 @@ def verify_recursive_contract(src, reg, prop):
     return IC.verify_integrate(src, reg, prop, callbacks=0, extra_inv=NO_CALLBACK_INV, extra_post=NO_CALLBACK_POST)
 
 
-def verify_integrate_events(src, reg, prop, n=1, terminals=(False,), direction=1, extra_inv=(), extra_post=(), callbacks=0):
+def verify_integrate_events(src, reg, prop, n=1, terminals=(False,), direction=1, extra_inv=(), extra_post=(), callbacks=0, outcomes=None):
+    """outcomes: None = every outcome of handle_events; else a list of tuples of active event indices (and the string "raise") -- the
+    outcomes this run explores.  Runs over a partition of the outcomes together verify the loop body (the jobs are run in parallel)."""
     ex = IC.base_executor(src, reg, prop)
     ex.global_axioms = ex.global_axioms + intcall.transcendental_axioms(ex)
     IC.install_callbacks(ex, callbacks)
@@ -173,6 +175,8 @@ def verify_integrate_events(src, reg, prop, n=1, terminals=(False,), direction=1
                             len(passed) == n and all(a is b for a, b in zip(passed, events)), backend="symbolic-exec")
         out = []
         for kind in ("AnyException", "KeyboardInterrupt"):
+            if outcomes is not None and "raise" not in outcomes:
+                continue
             sr = st.fork()
             out.append((sr, Raised(ExcVal(kind, tag="event-function"))))
         sgn = z3.If(t_next - t_prev > 0, 1, -1)
@@ -181,6 +185,8 @@ def verify_integrate_events(src, reg, prop, n=1, terminals=(False,), direction=1
                 term = [terminals[i] for i in idxs]
                 if any(term[:-1]):
                     continue            # the list is cut after the first terminal event
+                if outcomes is not None and tuple(idxs) not in outcomes:
+                    continue
                 s2 = st.fork()
                 roots = [z3.Real(fresh_name("root_ev%d" % i)) for i in idxs]
                 for j, r in enumerate(roots):
@@ -333,7 +339,8 @@ def verify_integrate_events(src, reg, prop, n=1, terminals=(False,), direction=1
                     reach[k] = True
     tag = "OdeSystem.integrate"
     reg.ground("%s/%s/cover#a-normal-return-with-status-1" % (prop, tag), "cover", tag, reach[1], backend="z3")
-    if any(terminals):
+    explored = all_outcomes(n, terminals) if outcomes is None else [o for o in outcomes if not isinstance(o, str)]
+    if any(terminals[i] for o in explored for i in o):
         reg.ground("%s/%s/cover#a-normal-return-with-status-2-after-a-terminal-event" % (prop, tag), "cover", tag, reach[2], backend="z3")
     return ex, c, rets
 
@@ -346,10 +353,41 @@ def config_label(n, terminals, direction, callbacks=0):
                                                        ",callback" if callbacks else "")
 
 
-def job_events(reg, src, prop, n, terminals, direction, callbacks=0):
-    ex, c, rets = verify_integrate_events(src, reg, "%s/%s" % (prop, config_label(n, terminals, direction, callbacks)), n=n, terminals=tuple(terminals), direction=direction,
-                                          callbacks=callbacks)
+def all_outcomes(n, terminals):
+    out = []
+    for k in range(0, n + 1):
+        for idxs in itertools.permutations(range(n), k):
+            term = [terminals[i] for i in idxs]
+            if not any(term[:-1]):
+                out.append(tuple(idxs))
+    return out
+
+
+def outcome_partition(n, terminals):
+    """parts of the outcomes of handle_events that are verified by separate jobs: the raising and at-most-one-root outcomes together,
+    every outcome with two or more roots on its own"""
+    outs = all_outcomes(n, terminals)
+    small = [o for o in outs if len(o) <= 1]
+    parts = [["raise"] + small] + [[o] for o in outs if len(o) >= 2]
+    return parts
+
+
+def job_events(reg, src, prop, n, terminals, direction, callbacks=0, outcomes=None, part=None):
+    label = config_label(n, terminals, direction, callbacks) + ("" if part is None else "#part%d" % part)
+    outs = None if outcomes is None else [tuple(o) if not isinstance(o, str) else o for o in outcomes]
+    ex, c, rets = verify_integrate_events(src, reg, "%s/%s" % (prop, label), n=n, terminals=tuple(terminals), direction=direction, callbacks=callbacks, outcomes=outs)
     return dict(ex.stats)
+
+
+def event_jobs(prop, n, terminals, direction):
+    """the jobs that together verify one configuration"""
+    if n < 2:
+        return [dict(fn="props.integrate_events:job_events", label="%s/%s" % (prop, config_label(n, terminals, direction)), kwargs=dict(prop=prop, n=n, terminals=list(terminals), direction=direction))]
+    jobs = []
+    for k, part in enumerate(outcome_partition(n, terminals)):
+        jobs.append(dict(fn="props.integrate_events:job_events", label="%s/%s#part%d" % (prop, config_label(n, terminals, direction), k),
+                         kwargs=dict(prop=prop, n=n, terminals=list(terminals), direction=direction, outcomes=[list(o) if not isinstance(o, str) else o for o in part], part=k)))
+    return jobs
 
 
 def job_recursive(reg, src, prop):
